@@ -192,7 +192,7 @@ def check(case):
                 import os
                 target = os.path.relpath(str(T.dir))
             must_raise('convert(source directory spelled as %s)' % how, IOError, creator.convert,
-                       target)
+                       target, **({'force': True} if case.get('second') else {}))
             require(D.sha_dir(T.dir) == before, 'refused conversion changed the source directory',
                     key='same-dir-wrote')
             out = d / 'alf'
